@@ -76,6 +76,9 @@ def run_case(case):
         else:
             node.run_to_end()
         res["days"] = node.steps_done
+        for ev in (spec.get("weather") or {}).get("events") or []:
+            res["faults"]["event:" + ev["kind"]] = res["faults"].get("event:" + ev["kind"], 0) + 1
+        res["faults"]["mode:" + str(case.get("mode"))] = 1
         t = node.tables()
         has_gw = spec.get("gw") is not None
         bad = []
